@@ -904,3 +904,165 @@ func c18BoundTests(c *Ctx, r *Report) {
 	r.Floor("R18.4e", "constant or summed upper bounds on strings and slices", na+nb, 1)
 	r.Infof("R18.4e: %d constant upper bounds, %d summed upper bounds", na, nb)
 }
+
+// c18HeaderDataMismatch (R18.4f): after a header/data length mismatch the
+// record is not built cell by cell against the header.
+func c18HeaderDataMismatch(c *Ctx, r *Report) {
+	r.Rule("R18.4f", "a length mismatch stops the record: in the readers (package input), where a function reads header[i] — a slice field of the reader — with i running over the cells of a line (i < len(cells)), the function tests len(header) against len(cells) for that same line, and from the edge on which they differ no path reaches that read before the next line is taken: the mismatch ends in an error, a skip or the ragged-input branch, never in falling through to the cell-by-cell loop (index out of range for a line with more cells than the header)")
+	p := c.Pkg("pkg/input")
+	if p == nil {
+		r.Undecided("R18.4f", "pkg/input", "", "package not loaded")
+		return
+	}
+	n := 0
+	for _, fn := range c.ModuleFunctions() {
+		if fn.Blocks == nil || fn.Pkg == nil || fn.Pkg.Pkg != p.Types {
+			continue
+		}
+		// len(B) calls and which B
+		lenArg := func(v ssa.Value) ssa.Value {
+			call, ok := v.(*ssa.Call)
+			if !ok {
+				return nil
+			}
+			if bi, ok := call.Call.Value.(*ssa.Builtin); !ok || bi.Name() != "len" {
+				return nil
+			}
+			return call.Call.Args[0]
+		}
+		// a load of a slice field of some object: identity = (object value, field index)
+		type fld struct {
+			obj ssa.Value
+			idx int
+		}
+		fieldOf := func(v ssa.Value) (fld, bool) {
+			u, ok := v.(*ssa.UnOp)
+			if !ok || u.Op != token.MUL {
+				return fld{}, false
+			}
+			fa, ok := u.X.(*ssa.FieldAddr)
+			if !ok {
+				return fld{}, false
+			}
+			if _, isSlice := u.Type().Underlying().(*types.Slice); !isSlice {
+				return fld{}, false
+			}
+			return fld{fa.X, fa.Field}, true
+		}
+		// mismatch tests
+		type mism struct {
+			f    fld
+			B    ssa.Value
+			succ *ssa.BasicBlock
+			pos  token.Pos
+		}
+		var tests []mism
+		for _, b := range fn.Blocks {
+			iff, ok := b.Instrs[len(b.Instrs)-1].(*ssa.If)
+			if !ok {
+				continue
+			}
+			cond, pol := stripNot(iff.Cond, true)
+			cmp, ok := cond.(*ssa.BinOp)
+			if !ok || (cmp.Op != token.NEQ && cmp.Op != token.EQL) {
+				continue
+			}
+			a1, a2 := lenArg(cmp.X), lenArg(cmp.Y)
+			if a1 == nil || a2 == nil {
+				continue
+			}
+			f, ok1 := fieldOf(a1)
+			B := a2
+			if !ok1 {
+				f, ok1 = fieldOf(a2)
+				B = a1
+			}
+			if !ok1 {
+				continue
+			}
+			if _, isF := fieldOf(B); isF {
+				continue
+			}
+			differ := (cmp.Op == token.NEQ) == pol // true: the true edge is "they differ"
+			succ := b.Succs[0]
+			if !differ {
+				succ = b.Succs[1]
+			}
+			tests = append(tests, mism{f, B, succ, iff.Pos()})
+		}
+		// accesses header[i] with i < len(B)
+		idx := 0
+		for _, b := range fn.Blocks {
+			for _, in := range b.Instrs {
+				ia, ok := in.(*ssa.IndexAddr)
+				if !ok {
+					continue
+				}
+				f, ok := fieldOf(ia.X)
+				if !ok {
+					continue
+				}
+				// the index is compared with len(B) somewhere (the loop condition)
+				var B ssa.Value
+				if ia.Index.Referrers() != nil {
+					for _, ref := range *ia.Index.Referrers() {
+						if cmp, ok := ref.(*ssa.BinOp); ok && cmp.Op == token.LSS && cmp.X == ia.Index {
+							if a := lenArg(cmp.Y); a != nil {
+								if _, isF := fieldOf(a); !isF {
+									B = a
+								}
+							}
+						}
+					}
+				}
+				if B == nil {
+					continue
+				}
+				// B must be a per-line value (defined in this function, not a parameter slice of fixed relation)
+				def, ok := B.(ssa.Instruction)
+				if !ok {
+					continue
+				}
+				idx++
+				n++
+				key := fmt.Sprintf("%s: header read #%d", SSAName(fn), idx)
+				var mine []mism
+				for _, t := range tests {
+					if t.f.idx == f.idx && (t.f.obj == f.obj || sameStr(t.f.obj, f.obj)) && t.B == B {
+						mine = append(mine, t)
+					}
+				}
+				if len(mine) == 0 {
+					r.Fail("R18.4f", key, c.Rel(ia.Pos()), fmt.Sprintf("%s reads the header cell by cell for a line's cells but never compares the two lengths for that line: a line with more cells than the header indexes past the header", SSAName(fn)))
+					continue
+				}
+				bad := ""
+				for _, t := range mine {
+					seen := map[*ssa.BasicBlock]bool{}
+					var walk func(x *ssa.BasicBlock) bool
+					walk = func(x *ssa.BasicBlock) bool {
+						if seen[x] || x == def.Block() {
+							return false // the next line: a new B
+						}
+						seen[x] = true
+						if x == b {
+							return true
+						}
+						for _, s := range x.Succs {
+							if walk(s) {
+								return true
+							}
+						}
+						return false
+					}
+					if walk(t.succ) {
+						bad = c.Rel(t.pos)
+					}
+				}
+				r.Check(bad == "", "R18.4f", key, c.Rel(ia.Pos()), "not reachable from the 'lengths differ' edge within the same line",
+					fmt.Sprintf("%s: from the edge of the test at %s on which len(header) and len(cells) differ, the cell-by-cell read of the header at %s can be reached for the same line: a line with more cells than the header makes the process panic (index out of range)", SSAName(fn), bad, c.Rel(ia.Pos())))
+			}
+		}
+	}
+	r.Floor("R18.4f", "cell-by-cell header reads bounded by the line's cells", n, 6)
+}
